@@ -793,3 +793,56 @@ Example C14_after_failed_restore_nonvacuous :
   DevServer.r_restored r1 = false /\ DevServer.holds_content (DevServer.r_srv r1) = true /\
   DevServer.r_out r2 = DevServer.SRefused /\ DevServer.r_trace r2 = [] /\ DevServer.r_srv r2 = DevServer.r_srv r1.
 Proof. vm_compute. repeat split. Qed.
+
+(** Round 5: which objects count as "not clean".  Both OSS inspectors never list
+    views, so for a server with views (Dev/DevServerView.v) the full statement
+      holds_content_v vs = true -> declined
+    is false: a MySQL schema holding only a view is accepted; an unbound
+    PostgreSQL connection whose "public" holds only a view is accepted and the
+    first session that writes anything makes the RestoreFunc DROP SCHEMA public
+    CASCADE -- the view is destroyed (findings C14-view-only-accepted,
+    C14-view-only-wiped-pg; the SQLite form of this was fixed as 17b84dd).
+    It does hold whenever the connection owns no view. *)
+From Atlas Require Dev.DevServerView.
+
+Theorem C14_refuse_untouched_views_refuted :
+  (exists vs, DevServerView.holds_content_v_my vs = true /\
+     DevServer.r_out (DevServer.run_sess [] (DevServerView.v_srv vs) []) = DevServer.SOk) /\
+  (exists vs body, DevServerView.holds_content_v_pg None vs = true /\
+     let r := DevServerPg.run_sess_pg None body (DevServerView.v_srv vs) [] in
+     DevServer.r_out r = DevServer.SOk /\ DevServer.r_restored r = true /\
+     DevServerView.views_after (DevServer.r_trace r) (DevServerView.v_views vs) = []).
+Proof.
+  split.
+  - exists (DevServerView.mkV (DevServer.mkSrv [DevServer.mkSch 1 []] (Some 1%N)) [(1%N, 9%N)]). vm_compute. split; reflexivity.
+  - exists (DevServerView.mkV (DevServer.mkSrv [DevServer.mkSch 0 []] (Some 0%N)) [(0%N, 9%N)]), [DevServer.SCt None 1].
+    vm_compute. repeat split.
+Qed.
+Print Assumptions C14_refuse_untouched_views_refuted.
+
+Theorem C14_refuse_untouched_views_except :
+  (forall (vs : DevServerView.vserver) (sc : DevServer.scenario) (fs : list bool),
+     existsb (DevServerView.owns_view_my (DevServerView.v_srv vs)) (DevServerView.v_views vs) = false ->
+     DevServerView.holds_content_v_my vs = true ->
+     let r := DevServer.run_scenario sc (DevServerView.v_srv vs) fs in
+     DevServer.r_trace r = [] /\ DevServer.r_srv r = DevServerView.v_srv vs /\ DevServer.r_ran r = false /\
+     (DevServer.r_out r = DevServer.SRefused \/ DevServer.r_out r = DevServer.SSnapErr)) /\
+  (forall (bound : option N) (vs : DevServerView.vserver) (sc : DevServer.scenario) (fs : list bool),
+     existsb (DevServerView.owns_view_pg bound) (DevServerView.v_views vs) = false ->
+     DevServerView.holds_content_v_pg bound vs = true ->
+     let r := DevServerPg.run_scenario_pg bound sc (DevServerView.v_srv vs) fs in
+     DevServer.r_trace r = [] /\ DevServer.r_srv r = DevServerView.v_srv vs /\ DevServer.r_ran r = false /\
+     (DevServer.r_out r = DevServer.SRefused \/ DevServer.r_out r = DevServer.SSnapErr)).
+Proof.
+  split.
+  - intros vs sc fs Hn H. exact (C14_refuse_untouched_mysql sc _ fs (DevServerView.content_without_views_my vs Hn H)).
+  - intros bound vs sc fs Hn H. exact (C14_refuse_untouched_pg bound sc _ fs (DevServerView.content_without_views_pg bound vs Hn H)).
+Qed.
+Print Assumptions C14_refuse_untouched_views_except.
+
+Example C14_views_nonvacuous :
+  (* a view in a foreign schema is not the bound connection's content; a table next to it is *)
+  DevServerView.holds_content_v_my (DevServerView.mkV (DevServer.mkSrv [DevServer.mkSch 1 []; DevServer.mkSch 2 []] (Some 1%N)) [(2%N, 9%N)]) = false /\
+  DevServerView.holds_content_v_my (DevServerView.mkV (DevServer.mkSrv [DevServer.mkSch 1 [3%N]; DevServer.mkSch 2 []] (Some 1%N)) [(2%N, 9%N)]) = true /\
+  DevServerView.views_after [DevServer.ECt 0 1; DevServer.EDs 0; DevServer.ECs 0] [(0%N, 9%N); (1%N, 8%N)] = [(1%N, 8%N)].
+Proof. vm_compute. repeat split. Qed.
